@@ -184,7 +184,8 @@ class Stream(meta(Iterable, metaclass=StreamMeta)):
 
     else:
       if all(isinstance(arg, Iterable) for arg in dargs):
-        self._data = it.chain(*dargs)
+        self._data = it.chain(*[iter(arg) for arg in dargs]) # iter() now, like
+                                                 # the single input case
       elif not any(isinstance(arg, Iterable) for arg in dargs):
         self._data = it.cycle(dargs)
       else:
